@@ -109,26 +109,6 @@ end Stab.Engine
 namespace Stab.Engine
 open Stab
 
-theorem applyTxn_canceled_iff (s : State) (l : List Eff) :
-    (applyTxn s l).canceled = true ↔ s.canceled = true ∨ Eff.setCanceled ∈ l := by
-  induction l generalizing s with
-  | nil => simp [applyTxn]
-  | cons e es ih =>
-    have := ih (applyEff s e)
-    simp only [applyTxn, List.foldl] at this ⊢
-    rw [this]
-    cases e with
-    | setCanceled => simp [applyEff]
-    | setStage i n =>
-      have : (applyEff s (.setStage i n)).canceled = s.canceled := by simp only [applyEff]; split <;> rfl
-      rw [this]; simp
-    | mark id =>
-      have : (applyEff s (.mark id)).canceled = s.canceled := by simp only [applyEff]; split <;> rfl
-      rw [this]; simp
-    | setWf st => simp [applyEff]
-    | push m => simp [applyEff]
-    | pushA m a => simp [applyEff]
-
 theorem applyTxn_wf_setWf (s : State) (l : List Eff) :
     (applyTxn s l).wfStatus = s.wfStatus ∨ ∃ st, Eff.setWf st ∈ l ∧ (applyTxn s l).wfStatus = st := by
   induction l generalizing s with
@@ -362,5 +342,127 @@ theorem canceled_drained_is_final (c : Cfg) (ops : List Op) (ha : Acked ops)
   rcases (run_cancInv c ops ha).cw hc with h1 | ⟨x, hx, _⟩
   · exact h1
   · rw [hq] at hx; cases hx
+
+end Stab.Engine
+
+namespace Stab.Engine
+open Stab
+
+/-! ### the driver invariant with cancel requests (plain class): drained ⇒ final, cancel or no cancel -/
+
+/-- a cancel request (push of CancelWorkflow) leaves the driver invariant intact -/
+theorem live_push_cancel (c : Cfg) (s : State) (h : Live c s) : Live c (applyEff s (.push .cancelWorkflow)) := by
+  have hstg : ∀ j, (applyEff s (.push .cancelWorkflow)).stage j = s.stage j := by
+    intro j; simp [applyEff, State.stage]
+  have hq : ∀ x, x ∈ (applyEff s (.push .cancelWorkflow)).queue ↔ x ∈ s.queue ∨ x = { id := s.nextId, msg := .cancelWorkflow } := by
+    intro x; simp [applyEff]
+  refine ⟨applyEff_push_plumb s _ h.plumb, ?_⟩
+  rcases h.cases with h1 | h1 | h1
+  · exact Or.inl h1
+  · right; left
+    obtain ⟨x, hx, hxm, hxu, hxo⟩ := h1.queue
+    refine ⟨h1.len, h1.nc, h1.wf, ⟨x, (hq x).mpr (Or.inl hx), hxm, ?_, ?_⟩, ?_⟩
+    · intro y hy hym
+      rcases (hq y).mp hy with h2 | h2
+      · exact hxu y h2 hym
+      · subst h2; cases hym
+    · intro y hy
+      rcases (hq y).mp hy with h2 | h2
+      · exact hxo y h2
+      · subst h2; exact Or.inr rfl
+    · intro i hi; rw [hstg i]; exact h1.pristine i hi
+  · right; right
+    have keepW : ∀ {P : Row → Prop}, (∃ x ∈ s.queue, P x) → ∃ x ∈ (applyEff s (.push .cancelWorkflow)).queue, P x := by
+      intro P ⟨x, hx, hp⟩; exact ⟨x, (hq x).mpr (Or.inl hx), hp⟩
+    refine ⟨h1.len, h1.nc, h1.running, ?_, ?_, ?_, ?_, ?_, ?_⟩
+    · intro j hj
+      have hinv := h1.stages j hj
+      refine ⟨by rw [hstg j]; exact hinv.ntasks, by rw [hstg j]; exact hinv.nobypass, by rw [hstg j]; exact hinv.status, ?_, ?_, ?_, ?_⟩
+      · intro hns
+        rw [hstg j] at hns ⊢
+        obtain ⟨p1, p2⟩ := hinv.idle hns
+        refine ⟨?_, p2⟩
+        intro y hy
+        rcases (hq y).mp hy with h2 | h2
+        · exact p1 y h2
+        · subst h2; rfl
+      · intro hrun
+        rw [hstg j] at hrun ⊢
+        obtain ⟨k, w, p1, p2, p3, p4⟩ := hinv.busy hrun
+        refine ⟨k, w, p1, p2, (hq w).mpr (Or.inl p3), ?_⟩
+        intro y hy hty
+        rcases (hq y).mp hy with h2 | h2
+        · exact p4 y h2 hty
+        · subst h2; cases hty
+      · intro hcomp
+        rw [hstg j] at hcomp
+        intro y hy
+        rcases (hq y).mp hy with h2 | h2
+        · exact hinv.fin hcomp y h2
+        · subst h2; rfl
+      · intro hns u hu
+        rw [hstg j] at hns; rw [hstg u]
+        exact hinv.ready hns u hu
+    · intro y hy
+      rcases (hq y).mp hy with h2 | h2
+      · exact h1.msgs y h2
+      · subst h2; trivial
+    · intro j hj hns hreq
+      rw [hstg j] at hns
+      exact keepW (h1.trig j hj hns (fun u hu => by have := hreq u hu; rwa [hstg u] at this))
+    · intro ⟨j, hj, ht⟩
+      rw [hstg j] at ht
+      exact keepW (h1.halt ⟨j, hj, ht⟩)
+    · intro hall
+      exact keepW (h1.alldone (fun j hj => by have := hall j hj; rwa [hstg j] at this))
+    · intro y hy j hym
+      rcases (hq y).mp hy with h2 | h2
+      · rw [hstg j]; exact h1.xs y h2 j hym
+      · subst h2; cases hym
+
+/-- deliveries and cancel requests -/
+def DeliverOrCancel (ops : List Op) : Prop := ∀ op ∈ ops, (∃ id, op = .deliver id) ∨ op = .cancel
+
+theorem deliverOrCancel_acked (ops : List Op) (h : DeliverOrCancel ops) : Acked ops := by
+  intro op hop
+  rcases h op hop with ⟨id, rfl⟩ | rfl
+  · exact Or.inl ⟨id, rfl⟩
+  · exact Or.inr (Or.inl rfl)
+
+/-- as long as no cancel request has been accepted, the driver invariant holds along the run -/
+theorem run_live_or_canceled (c : Cfg) (hc : PlainCfg c) (ops : List Op) (hd : DeliverOrCancel ops) :
+    (run c ops).canceled = true ∨ Live c (run c ops) := by
+  unfold run
+  suffices ∀ s, Good s → (s.canceled = true ∨ Live c s) →
+      ((ops.foldl (step c) s).canceled = true ∨ Live c (ops.foldl (step c) s)) from
+    this _ (start_good c) (Or.inr (start_live c))
+  induction ops with
+  | nil => intro s _ h; exact h
+  | cons op ops ih =>
+    intro s hg h
+    apply ih (fun o ho => hd o (List.mem_cons_of_mem _ ho)) _ (step_good c (plain_noJump c hc) s op hg)
+    rcases h with hcan | hlive
+    · left
+      rcases hd op (List.mem_cons_self ..) with ⟨id, rfl⟩ | rfl
+      · simp only [step]; split
+        · exact hcan
+        · exact deliverRow_canceled_mono c s _ _ _ hcan
+      · exact applyEff_canceled_mono _ _ hcan
+    · rcases hd op (List.mem_cons_self ..) with ⟨id, rfl⟩ | rfl
+      · exact live_step c hc s hg hlive id
+      · right; exact live_push_cancel c s hlive
+
+/-- **The driver invariant with cancel requests**: for every workflow of the plain class and every schedule made of
+    acknowledged deliveries (any pending message next) and cancel requests at any moment, a drained queue means the
+    workflow has reached a final status. -/
+theorem plain_drained_is_final (c : Cfg) (hc : PlainCfg c) (ops : List Op) (hd : DeliverOrCancel ops)
+    (hq : (run c ops).queue = []) : (run c ops).wfStatus.isComplete = true := by
+  rcases run_live_or_canceled c hc ops hd with h | h
+  · exact canceled_drained_is_final c ops (deliverOrCancel_acked ops hd) h hq
+  · exact live_quiescent_final c hc _ h hq
+
+theorem run_live (c : Cfg) (hc : PlainCfg c) (ops : List Op) (hd : DeliverOnly ops) :
+    (run c ops).canceled = true ∨ Live c (run c ops) :=
+  run_live_or_canceled c hc ops (fun op hop => Or.inl (hd op hop))
 
 end Stab.Engine
